@@ -279,32 +279,31 @@ def _replay_job(ji):
     return ji, n, bad
 
 
-def _tables(chk: Check, insts, stride16: int, shards: int):
+def _tables(chk: Check, insts, shards: int):
     """Run Quant_MBT (invariants on) over all instances; -> {id: rows in raw order}."""
     small = [r for r, _ in insts if r["rawMax"] - r["rawMin"] < 256]
     big = [r for r, _ in insts if r["rawMax"] - r["rawMin"] >= 256]
     if any(r["rawMax"] - r["rawMin"] > 65535 for r in big):
         raise MachineryError("instance on a wire type wider than 16 bits: the property quantifies over 8/16-bit types")
-    groups = [(small, 1)] + [(g, stride16) for g in common.chunked(big, shards) if g]
+    groups = [small] + [g for g in common.chunked(big, shards) if g]
     import concurrent.futures as cf
 
     def one(arg):
-        no, (recs, stride) = arg
+        no, recs = arg
         d = os.path.join(chk.scratch, "q%d" % no)
         os.makedirs(d, exist_ok=True)
         with open(os.path.join(d, "insts.json"), "w") as f:
             json.dump(recs, f)
         cfg = os.path.join(d, "Quant_MBT.cfg")
         with open(cfg, "w") as f:
-            f.write("SPECIFICATION MSpec\nCONSTANTS Stride = %d\n%sPROPERTY MonotoneStep\n" % (
-                stride, "".join("INVARIANT %s\n" % i for i in INVS)))
+            f.write("SPECIFICATION MSpec\n%sPROPERTY MonotoneStep\n" % "".join("INVARIANT %s\n" % i for i in INVS))
         return run_tlc(os.path.join(SPECS, "Quant_MBT.tla"), cfg, workers=1, scratch=d,
                        env={"QUANT_INSTS": os.path.join(d, "insts.json")}, heap="3g")
     with cf.ThreadPoolExecutor(max_workers=len(groups)) as ex:
         results = list(ex.map(one, enumerate(groups)))
     tables = {}
-    for (recs, stride), res in zip(groups, results):
-        chk.add_tlc(res, "Quant %d instance(s) stride %d" % (len(recs), stride))
+    for recs, res in zip(groups, results):
+        chk.add_tlc(res, "Quant %d instance(s)" % len(recs))
         if not res.ok:
             # TLC stops at the first state that breaks a clause: name the instance and the raw
             cex = res.counterexample()
@@ -326,8 +325,7 @@ def _tables(chk: Check, insts, stride16: int, shards: int):
             raise MachineryError("no table for instance %s" % r["id"])
         rows.sort(key=lambda x: x["raw"])
         exp = r["rawMax"] - r["rawMin"] + 1
-        if rows[0]["raw"] != r["rawMin"] or rows[-1]["raw"] != r["rawMax"] or (
-                (stride16 == 1 or exp <= 256) and len(rows) != exp):
+        if rows[0]["raw"] != r["rawMin"] or rows[-1]["raw"] != r["rawMax"] or len(rows) != exp:
             raise MachineryError("table of %s is incomplete (%d rows)" % (r["id"], len(rows)))
     return tables
 
@@ -357,7 +355,7 @@ def run(chk: Check):
         "the upper end of a declared range is constrained only when it lies on the raw grid (it does not for PackedTERotation and FixedPoint)",
     ]
     # both tiers walk every raw value of every instance; they differ in the duration sweep
-    tables = _tables(chk, insts, stride16=1, shards=8)
+    tables = _tables(chk, insts, shards=8)
     durs = _durations(chk, quick)
     jobs = []
     for rec, h in insts:
